@@ -9,6 +9,7 @@ import CGV.Model.Sample
 import CGV.Model.ReadCG
 import CGV.Model.Write
 import CGV.Model.Strip
+import CGV.Model.FragCG
 import CGV.Model.Coords
 import CGV.Model.Layout
 open Lean CGV CGV.J
@@ -87,6 +88,13 @@ def handle (j : Json) : Except String Json := do
     | .ok o => pure (Json.mkObj [("ok", Json.mkObj [("smile", str o.smile),
         ("bonding", Json.arr (o.bonding.map fun (k, ds) => Json.arr #[nat k, Json.arr (ds.map str).toArray]).toArray),
         ("ez", Json.arr (o.ez.map fun (k, c) => Json.arr #[nat k, str [c]]).toArray),
+        ("attrs", Json.arr (o.attrs.map fun (k, a) => Json.arr #[nat k, attrsTo a]).toArray)])])
+    | .error e => pure (errTo e)
+  | "readfragcg" =>
+    let t ← ofStr (← j.getObjVal? "s")
+    match readFragCG t with
+    | .ok o => pure (Json.mkObj [("ok", Json.mkObj [("g", cgTo o.g),
+        ("bonding", Json.arr (o.bonding.map fun (k, ds) => Json.arr #[nat k, Json.arr (ds.map str).toArray]).toArray),
         ("attrs", Json.arr (o.attrs.map fun (k, a) => Json.arr #[nat k, attrsTo a]).toArray)])])
     | .error e => pure (errTo e)
   | "splitfrags" =>
